@@ -24,6 +24,7 @@ import (
 type Env struct {
 	C      client.Client // acts as "env"
 	podSeq int
+	pick   int // the scheduler's pick of the current step (actors may use its parity to vary their internal order)
 	// NeverReady decides whether a newly created pod will never become ready (failure injection).
 	NeverReady func(p *corev1.Pod) bool
 	// Nodes is the node count used by DaemonSets.
@@ -61,6 +62,10 @@ func must(err error) {
 func (e *Env) Step(pick int) string {
 	actors := []func() string{e.stepDeployments, e.stepReplicaSets, e.stepPods, e.stepCloneSets, e.stepStatefulSets, e.stepDaemonSets}
 	n := len(actors)
+	e.pick = pick / n
+	if e.pick < 0 {
+		e.pick = -e.pick
+	}
 	for i := 0; i < n; i++ {
 		if a := e.safely(actors[(pick+i)%n]); a != "" {
 			e.Steps[a]++
